@@ -1,3 +1,269 @@
-import CalicoVerif.Model.C04
+import CalicoVerif.Proofs.C04
+/-!
+C04 — IP set contents equal the addresses selected by the rule.
+
+Property theorems over the model `CalicoVerif/Model/C04.lean` of
+`felix/labelindex/named_port_index.go` (+ ipsetmember, overlap suppressor).
+
+What is proved here (for ALL states reachable by ANY sequence of the refcount
+transitions the index performs — `incref`, `decref`, whole `scanEndpointAgainstIPSets`
+passes — from any well-formed state, in both suppressor modes):
+
+* callbacks alternate and each member is held once (`members_once_and_alternate`);
+* without suppression the consumer holds exactly the members with a positive reference
+  count (`noop_members_eq_refcounted`);
+* with suppression the consumer holds an antichain (`suppressed_antichain`) that covers
+  exactly the addresses of the reference-counted CIDRs (`suppressed_cover_eq`), and the
+  suppressor's trie holds exactly the reference-counted CIDRs.
+
+What is NOT proved (and therefore carries the `_partial` suffix on the history theorem):
+that the reference counts equal the number of contributions of the endpoints whose labels
+match (`refcount = Σ contrib`), and that the composite operations (`UpdateIPSet`, …) only
+issue transitions whose guards hold.  Both are tied to the real code by the correspondence
+harness (refcount maps, match caches and trie contents compared line by line) and by the
+from-scratch oracle on the real index.
+
+Also recorded: a history on which the real index PANICS (`dup_profile_id_panics`).
+-/
 namespace CalicoVerif.C04
+
+set_option linter.unusedSectionVars false
+variable {Sel : Type} [DecidableEq Sel]
+
+/-! ### what a well-formed state guarantees -/
+
+theorem replayFrom_nodup {d d' : Down} {es : List Event} (h : replayFrom d es = some d') (nd : d.Nodup) :
+    d'.Nodup := by
+  induction es generalizing d with
+  | nil => simp [replayFrom] at h; subst h; exact nd
+  | cons e es ih =>
+    simp only [replayFrom] at h
+    cases he : applyEvent d e with
+    | none => rw [he] at h; cases h
+    | some d1 =>
+      rw [he] at h
+      apply ih h
+      cases e with
+      | added s m =>
+        simp only [applyEvent] at he
+        split at he
+        · cases he
+        · cases he; exact List.nodup_cons.2 ⟨by assumption, nd⟩
+      | removed s m =>
+        simp only [applyEvent] at he
+        split at he
+        · cases he; exact nd.filter _
+        · cases he
+      | cleared s =>
+        simp only [applyEvent] at he
+        cases he; exact nd.filter _
+
+/-- **Callbacks alternate, each member once.**  The strict replay of every callback made so
+far succeeds (no add of a member the consumer holds, no removal of one it lacks), the
+consumer holds each member once, and what it holds is exactly the visible members. -/
+theorem members_once_and_alternate {st : Idx Sel} (h : WF st) :
+    ∃ D, replay st.out = some D ∧ D.Nodup ∧ ∀ s m, (s, m) ∈ D ↔ visible st s m := by
+  obtain ⟨D, hD, hm⟩ := h.e.down
+  exact ⟨D, hD, replayFrom_nodup hD List.nodup_nil, hm⟩
+
+/-- Without overlap suppression: the consumer holds exactly the members whose reference
+count is positive (named-port members included). -/
+theorem noop_members_eq_refcounted {st : Idx Sel} (h : WF st) (hs : st.suppress = false) :
+    ∃ D, replay st.out = some D ∧ ∀ s m, (s, m) ∈ D ↔ 0 < refCount st s m := by
+  obtain ⟨D, hD, hm⟩ := h.e.down
+  exact ⟨D, hD, fun s m => by rw [hm, visible_noop hs]⟩
+
+/-- Named-port (address, protocol, port) members are never suppressed, in either mode. -/
+theorem named_port_members_eq_refcounted {st : Idx Sel} (h : WF st) :
+    ∃ D, replay st.out = some D ∧
+      ∀ s v a po pr, (s, Member.ipp v a po pr) ∈ D ↔ 0 < refCount st s (.ipp v a po pr) := by
+  obtain ⟨D, hD, hm⟩ := h.e.down
+  exact ⟨D, hD, fun s v a po pr => by rw [hm, visible_ipp]⟩
+
+/-- With suppression no emitted member lies inside another emitted member. -/
+theorem suppressed_antichain {st : Idx Sel} (h : WF st) (hs : st.suppress = true) :
+    ∃ D, replay st.out = some D ∧
+      ∀ s a b, (s, Member.cidr a) ∈ D → (s, Member.cidr b) ∈ D → a.sc b = false := by
+  obtain ⟨D, hD, hm⟩ := h.e.down
+  refine ⟨D, hD, fun s a b ha hb => ?_⟩
+  exact ((hm s _).1 hb).2 hs b rfl a ((hm s _).1 ha).1
+
+/-- every reference-counted CIDR is equal to or inside an emitted one -/
+theorem refcounted_covered {st : Idx Sel} (s : String) :
+    ∀ (n : Nat) (c : Cidr), c.len = n → 0 < refCount st s (.cidr c) →
+      ∃ c', visible st s (.cidr c') ∧ (c' = c ∨ c'.sc c = true) := by
+  intro n
+  induction n using Nat.strongRecOn with
+  | _ n ih =>
+    intro c hn hc
+    by_cases hv : visible st s (.cidr c)
+    · exact ⟨c, hv, Or.inl rfl⟩
+    · unfold visible at hv
+      simp only [hc, true_and] at hv
+      have : ∃ c', 0 < refCount st s (.cidr c') ∧ c'.sc c = true := by
+        apply Classical.byContradiction
+        intro hne
+        apply hv
+        intro _ c0 hc0 c' hc'
+        cases hc0
+        cases hsc : c'.sc c
+        · rfl
+        · exact absurd ⟨c', hc', hsc⟩ hne
+      obtain ⟨c', hc', hsc⟩ := this
+      have hlt : c'.len < n := by rw [← hn]; exact (Cidr.sc_iff.1 hsc).2.1
+      obtain ⟨c'', hv'', hor⟩ := ih c'.len hlt c' rfl hc'
+      refine ⟨c'', hv'', Or.inr ?_⟩
+      rcases hor with rfl | h
+      · exact hsc
+      · exact Cidr.sc_trans h hsc
+
+/-- With suppression the emitted members cover exactly the addresses covered by the
+reference-counted CIDRs of the set. -/
+theorem suppressed_cover_eq {st : Idx Sel} (h : WF st) :
+    ∃ D, replay st.out = some D ∧
+      ∀ s (v6 : Bool) (x : Nat),
+        (∃ c, (s, Member.cidr c) ∈ D ∧ c.v6 = v6 ∧ c.hasAddr x) ↔
+        (∃ c, 0 < refCount st s (.cidr c) ∧ c.v6 = v6 ∧ c.hasAddr x) := by
+  obtain ⟨D, hD, hm⟩ := h.e.down
+  refine ⟨D, hD, fun s v6 x => ?_⟩
+  constructor
+  · rintro ⟨c, hc, hv, hx⟩
+    exact ⟨c, ((hm s _).1 hc).1, hv, hx⟩
+  · rintro ⟨c, hc, hv, hx⟩
+    obtain ⟨c', hv', hor⟩ := refcounted_covered (st := st) s c.len c rfl hc
+    refine ⟨c', (hm s _).2 hv', ?_⟩
+    rcases hor with rfl | hsc
+    · exact ⟨hv, hx⟩
+    · exact ⟨(Cidr.sc_iff.1 hsc).1.trans hv, Cidr.hasAddr_of_sc hsc hx⟩
+
+/-- With suppression the trie holds exactly the reference-counted CIDRs, so the suppressor is
+only ever asked to add absent and remove present CIDRs. -/
+theorem suppressor_trie_eq_refcounted {st : Idx Sel} (h : WF st) (hs : st.suppress = true) (s : String)
+    (c : Cidr) : c ∈ trieOf st s ↔ 0 < refCount st s (.cidr c) := h.e.trie hs s c
+
+/-! ### every refcount transition keeps the invariants -/
+
+/-- The refcount transitions the index performs. `scan` is a whole
+`scanEndpointAgainstIPSets(epData, oldContributions)` pass. -/
+inductive Prim where
+  | inc (s : String) (m : Member)
+  | dec (s : String) (m : Member)
+  | scan (e : EpData) (old : List (String × List Member))
+
+/-- CIDRs entering the index are canonical (they come from `ip.CIDRFrom…`). -/
+def Prim.canon : Prim → Prop
+  | .inc _ m => ∀ c, m = .cidr c → c.canon
+  | .dec _ _ => True
+  | .scan e _ => ∀ c ∈ e.nets, c.canon
+
+def stepPrim (matchSel : Sel → Labels → Bool) (st : Idx Sel) : Prim → Idx Sel
+  | .inc s m => incref s m st
+  | .dec s m => decref s m st
+  | .scan e old => (scanEp matchSel e old st).1
+
+/-- For every sequence of refcount transitions (any order, any members, including
+decrements that hit zero, re-adds, nested and duplicate CIDRs) from a well-formed state:
+either a flag went up (Go panic on a missing set / uint64 refcount wrap — both are
+bookkeeping errors of the CALLER of these transitions) or every invariant above still
+holds.  `_partial`: see the file header for what is not proved. -/
+theorem refcount_transitions_keep_invariants_partial (matchSel : Sel → Labels → Bool)
+    (ops : List Prim) (st : Idx Sel) (hg : Good st) (hc : ∀ op ∈ ops, op.canon) :
+    Good (ops.foldl (stepPrim matchSel) st) := by
+  induction ops generalizing st with
+  | nil => exact hg
+  | cons op ops ih =>
+    rw [List.foldl_cons]
+    apply ih _ _ (fun o ho => hc o (List.mem_cons_of_mem _ ho))
+    have hop := hc op (List.mem_cons_self ..)
+    cases op with
+    | inc s m => exact incref_good hg hop
+    | dec s m => exact decref_good hg
+    | scan e old => exact (scanEp_good matchSel hg hop).1
+
+/-- A raised flag is never lowered by a transition. -/
+theorem flags_sticky (matchSel : Sel → Labels → Bool) (ops : List Prim) (st : Idx Sel)
+    (hb : bad st = true) : bad (ops.foldl (stepPrim matchSel) st) = true := by
+  induction ops generalizing st with
+  | nil => exact hb
+  | cons op ops ih =>
+    rw [List.foldl_cons]
+    apply ih
+    cases op with
+    | inc s m => exact (incref_frame s m st).badMono hb
+    | dec s m => exact (decref_frame s m st).badMono hb
+    | scan e old => exact (scanEp_frame matchSel e old st).badMono hb
+
+/-! ### non-vacuity -/
+
+theorem refCount_nil_refc (st : Idx Sel) (h : ∀ p ∈ st.ipsets, p.2.refc = []) (s : String) (m : Member) :
+    refCount st s m = 0 := by
+  unfold refCount
+  cases hg : alGet s st.ipsets with
+  | none => rfl
+  | some d =>
+    have := h _ (alGet_some_mem hg)
+    simp only at this
+    simp [refOf, this]
+
+/-- A state with empty refcount maps, no callbacks yet and empty tries is well-formed (in
+particular the fresh index, and a fresh index with any IP sets registered). -/
+theorem wf_of_empty (st : Idx Sel) (h : ∀ p ∈ st.ipsets, p.2.refc = []) (ho : st.out = [])
+    (ht : st.tries = []) (he : st.eps = []) (hk : (st.ipsets.map (·.1)).Nodup) : WF st := by
+  have hz := refCount_nil_refc st h
+  refine ⟨⟨⟨[], by rw [ho]; rfl, fun s m => ?_⟩, ?_, ?_, ?_⟩, ?_, hk, ?_⟩
+  · simp [visible, hz]
+  · intro _ s c; simp [trieOf, ht, hz]
+  · intro s; simp [trieOf, ht]
+  · intro s c hc; rw [hz] at hc; cases hc
+  · intro p hp; rw [he] at hp; cases hp
+  · intro p hp; rw [h p hp]; simp
+
+theorem wf_new (b : Bool) : WF (Idx.new Sel b) :=
+  wf_of_empty _ (fun p hp => by cases hp) rfl rfl rfl List.nodup_nil
+
+/-- a fresh suppressing index with one selector IP set `s` -/
+def exIdx : Idx Nat :=
+  { Idx.new Nat true with ipsets := [("s", { sel := 0, proto := 0, port := "", refc := [] })] }
+
+example : WF exIdx :=
+  wf_of_empty _ (fun p hp => by simp [exIdx] at hp; subst hp; rfl) rfl rfl rfl (by simp [exIdx])
+
+def ex24 : Member := .cidr { v6 := false, addr := 167772160, len := 24 }   -- 10.0.0.0/24
+def ex32 : Member := .cidr { v6 := false, addr := 167772161, len := 32 }   -- 10.0.0.1/32
+
+/-- hypotheses of the history theorem are satisfiable by a non-trivial history: add the /32,
+then the /24 that masks it, then remove the /24 again. -/
+example : ∀ op ∈ [Prim.inc "s" ex32, .inc "s" ex24, .inc "s" ex24, .dec "s" ex24, .dec "s" ex24], op.canon := by
+  intro op hop
+  simp only [List.mem_cons, List.not_mem_nil, or_false] at hop
+  rcases hop with rfl | rfl | rfl | rfl | rfl <;>
+    first
+      | trivial
+      | (intro c hc; simp only [ex32, ex24, Member.cidr.injEq] at hc; subst hc; decide)
+
+/-- … and on it the model emits: add /32; add /24 and remove the now-masked /32; nothing for
+the duplicate add and the first decrement; then remove /24 and re-add /32. -/
+example :
+    ([Prim.inc "s" ex32, .inc "s" ex24, .inc "s" ex24, .dec "s" ex24, .dec "s" ex24].foldl
+      (stepPrim (fun _ _ => true)) exIdx).out =
+    [.added "s" ex32, .added "s" ex24, .removed "s" ex32, .removed "s" ex24, .added "s" ex32] := by
+  decide
+
+/-! ### a history on which the real index panics -/
+
+/-- **Finding.** An endpoint that lists the same profile id twice makes `DeleteEndpoint` (and any
+`UpdateEndpointOrSet` that drops that profile) panic with "discard of unknown ID" when no other
+endpoint uses the profile: the clean-up loop discards the endpoint id once per occurrence.
+Reproduced on the real index by the harness (oracle signature `panic-dup-profile-id`). -/
+theorem dup_profile_id_panics :
+    (run (fun (_ : Nat) _ => true) (Idx.new Nat false)
+      [.updateEndpoint "w1" [] [] [] ["p1", "p1"], .deleteEndpoint "w1"]).panicked = true := by
+  decide
+
+/-- With duplicate-free profile lists the same history does not panic. -/
+example :
+    (run (fun (_ : Nat) _ => true) (Idx.new Nat false)
+      [.updateEndpoint "w1" [] [] [] ["p1", "p2"], .deleteEndpoint "w1"]).panicked = false := by
+  decide
+
 end CalicoVerif.C04
